@@ -389,3 +389,42 @@ func (s *sess) checkRestingSide(rule string) {
 	}
 	c.Check(n >= 2, rule, "", "paths that end in WaitingLogon / WaitingLogonAnswer found", 0, fmt.Sprint(n), fmt.Sprintf("only %d such paths (anchor moved)", n))
 }
+
+// checkStateReadAfterDecode: an inbound handler branches on the session state as it is after the message has been decoded — on
+// no trace does a call of the (pluggable, arbitrarily slow) unmarshaller lie between the read of the state and the branch that
+// uses it. A snapshot taken before the decode lets a Stop()/Logout() that lands meanwhile go unseen: the handler then answers
+// the peer's Logout a second time instead of completing the local one.
+func (s *sess) checkStateReadAfterDecode(rule string) {
+	c := s.c
+	n := 0
+	for _, r := range s.roots() {
+		if r.Cat != "inbound" {
+			continue
+		}
+		bad := ""
+		for _, t := range s.tr.Traces(r.Fn, s.m.AllStates) {
+			readAt := map[ssa.Value]int{}
+			for i, e := range t.Events {
+				switch e.Kind {
+				case "stateread":
+					if e.Val != nil {
+						readAt[e.Val] = i
+					}
+				case "guard":
+					j, ok := readAt[e.ReadVal]
+					if !ok {
+						continue
+					}
+					for k := j + 1; k < i; k++ {
+						if t.Events[k].Kind == "unmarshal" {
+							bad = "the state tested at " + c.RelPos(e.Pos) + " was read before the message was decoded: a state change made by another goroutine during the decode is missed"
+						}
+					}
+				}
+			}
+		}
+		n++
+		c.Check(bad == "", rule, r.Name(), "the state the handler branches on is read after the decode", r.Fn.Pos(), "no unmarshal between the read and the test", bad)
+	}
+	c.Check(n >= 5, rule, "", "inbound handlers found", token.NoPos, fmt.Sprint(n), fmt.Sprintf("only %d inbound handlers", n))
+}
